@@ -269,8 +269,42 @@ Record inv_ok (i : invoice) : Prop := mkOk {
                 (h_total h <= wsum (mppl (i_state i)) (i_htlcs i))%N
 }.
 
+(* ---- AMP invoices: htlcs are settled per set while the invoice stays open ---- *)
+Definition amp_data_ok (i : invoice) (h : htlc) : Prop :=
+  (exists s, h_set h = Some s) /\ h_addr h = Some (i_addr i) /\
+  (u32 (h_height h + g_rd g) <= h_expiry h)%Z /\
+  (u32 (h_height h + i_delta i) <= h_expiry h)%Z /\
+  h_total h <> 0%N /\ (i_value i <= h_total h)%N.
+
+(* the htlcs that were settled together by the arrival of htlc `gen` *)
+Definition batch (gen : N) (h : htlc) : bool := is_state HSettled h && N.eqb (h_gen h) gen.
+
+Record amp_ok (i : invoice) : Prop := mkAmpOk {
+  ao_nodup : NoDup (map fst (i_htlcs i));
+  ao_state : i_state i = COpen \/ i_state i = CCanceled;
+  ao_data : forall k h, In (k, h) (i_htlcs i) -> amp_data_ok i h;
+  ao_pre : forall k h, In (k, h) (i_htlcs i) -> h_state h = HSettled ->
+           exists p, h_pre h = Some p /\ H p = h_hash h;
+  ao_gen : forall k h, In (k, h) (i_htlcs i) -> h_state h = HSettled ->
+           exists hg, In (h_gen h, hg) (i_htlcs i) /\ h_set hg = h_set h;
+  ao_common : forall k h k' h', In (k, h) (i_htlcs i) -> In (k', h') (i_htlcs i) ->
+              h_state h = HSettled -> h_state h' = HSettled -> h_gen h' = h_gen h ->
+              h_set h' = h_set h /\ h_total h' = h_total h;
+  ao_complete : forall k h, In (k, h) (i_htlcs i) -> h_state h = HSettled ->
+                (h_total h <= wsum (batch (h_gen h)) (i_htlcs i))%N
+}.
+
+Definition ok (i : invoice) : Prop := if i_amp i then amp_ok i else inv_ok i.
+
 Definition state_ok (st : state) : Prop :=
-  NoDup (map i_hash (invs st)) /\ forall i, In i (invs st) -> inv_ok i.
+  NoDup (map i_hash (invs st)) /\ forall i, In i (invs st) -> ok i.
+
+Lemma ok_amp i : i_amp i = true -> ok i -> amp_ok i.
+Proof. unfold ok. intros E. rewrite E. auto. Qed.
+Lemma ok_nonamp i : i_amp i = false -> ok i -> inv_ok i.
+Proof. unfold ok. intros E. rewrite E. auto. Qed.
+Lemma ok_nodup_keys i : ok i -> NoDup (map fst (i_htlcs i)).
+Proof. unfold ok. destruct (i_amp i); intro X; apply X. Qed.
 
 Lemma data_ok_terms i st pre hs paid h :
   data_ok i h -> data_ok (with_htlcs i st pre hs paid) h.
